@@ -390,3 +390,290 @@ def m4_get_transactions(S):
                 S.prove(ctx, ob, f"{tag}_every_answer_item_carries_the_coordinates_and_hash_of_one_row", [], bool(shape))
                 S.prove(ctx, ob, f"{tag}_the_answer_is_exactly_the_rows_under_the_prefix_that_pass_the_filters_in_scan_order", pre, T.and_(*goals) if goals else False)
                 S.witness(ctx, ob, f"{tag}_reach_two_rows_answered" if limit_value >= 2 else f"{tag}_reach_second_row_answered", pre, T.and_(inc[1], inc[0]) if limit_value >= 2 else T.and_(inc[1], T.not_(inc[0])))
+
+
+# ------------------------------------------------------------------------------------------------ get_cells
+FILTERS = ["none", "script_prefix", "script_len_range", "output_data_prefix", "output_data_exact", "output_data_partial", "output_data_len_range", "output_capacity_range", "block_range"]
+
+
+def run_get_cells(S, search_type, which, exact, limit_value, with_data, nrows=2):
+    """one scenario of `get_cells`: the searched script kind, ONE filter of `FILTERS` present, exact or prefix mode; `nrows` rows of the live-cell index follow the start key"""
+    f = [x for x in S.prog.funcs if x.kind == "fn" and x.short == "get_cells" and "indexer/src/service.rs" in x.name and "{closure" not in x.name]
+    if len(f) != 1:
+        raise Inconclusive(f"get_cells: {len(f)} candidates")
+    f = f[0]
+    keyv = _enum("util/indexer/src/indexer.rs", "Key")
+    stype = _enum(JT, "IndexerScriptType")
+    smode = _enum(JT, "IndexerSearchMode")
+    ctx = S.ctx(unwind=nrows + 3)
+    ctx.uninterpreted_unknown_calls = True
+    inpre = [ctx.bool(f"row{k}_in_prefix") for k in range(nrows)]
+    oix = [ctx.int(f"row{k}_output_index", "u32") for k in range(nrows)]
+    bn = [ctx.int(f"row{k}_block_number", "u64") for k in range(nrows)]
+    txi = [ctx.int(f"row{k}_tx_index", "u32") for k in range(nrows)]
+    has_type = [ctx.bool(f"row{k}_cell_has_type_script") for k in range(nrows)]
+    sp_lock = [ctx.bool(f"row{k}_lock_script_starts_with_filter") for k in range(nrows)]
+    sp_type = [ctx.bool(f"row{k}_type_script_starts_with_filter") for k in range(nrows)]
+    len_lock = [ctx.int(f"row{k}_lock_script_len", "usize") for k in range(nrows)]
+    len_type = [ctx.int(f"row{k}_type_script_len", "usize") for k in range(nrows)]
+    data_pre = [ctx.bool(f"row{k}_data_starts_with_filter") for k in range(nrows)]
+    data_ne = [ctx.bool(f"row{k}_data_differs_from_filter") for k in range(nrows)]
+    data_find = [ctx.bool(f"row{k}_data_contains_filter") for k in range(nrows)]
+    data_len = [ctx.int(f"row{k}_data_len", "usize") for k in range(nrows)]
+    cap = [ctx.int(f"row{k}_capacity", "u64") for k in range(nrows)]
+    r0, r1 = ctx.int("range_start", "u64"), ctx.int("range_end", "u64")
+    gets, qopts, prefixes, used = [], [], set(), []
+
+    def rowno(ex, v):
+        v = deref(ex, v) if isinstance(v, RefV) else v
+        m = re.search(r"row(\d+)", getattr(v, "name", "") or "")
+        if not m:
+            raise Stop(f"not a row value: {str(v)[:80]}")
+        return int(m.group(1))
+    none = lambda ty: mk_option(False, None, ty)
+    rng_usize = AggV((IntV(r0.t, "usize"), IntV(r1.t, "usize")), "[usize; 2]")
+    rng_u64 = AggV((r0, r1), "[u64; 2]")
+    rng_cap = AggV((AggV((r0,), "Capacity"), AggV((r1,), "Capacity")), "[Capacity; 2]")
+    mode_of = {"output_data_prefix": "Prefix", "output_data_exact": "Exact", "output_data_partial": "Partial"}
+    fo = _struct("util/indexer/src/service.rs", "FilterOptions", {
+        "script_prefix": mk_option(True, OpaqueV("filter_script_prefix", "Vec<u8>"), "Option<Vec<u8>>") if which == "script_prefix" else none("Option<Vec<u8>>"),
+        "script_len_range": mk_option(True, rng_usize, "Option<[usize; 2]>") if which == "script_len_range" else none("Option<[usize; 2]>"),
+        "output_data": mk_option(True, AggV((OpaqueV("filter_data", "Vec<u8>"), EnumV(smode.index(mode_of[which]), (), "IndexerSearchMode")), "(Vec<u8>, IndexerSearchMode)"), "Option<(Vec<u8>, IndexerSearchMode)>") if which in mode_of else none("Option<(Vec<u8>, IndexerSearchMode)>"),
+        "output_data_len_range": mk_option(True, rng_usize, "Option<[usize; 2]>") if which == "output_data_len_range" else none("Option<[usize; 2]>"),
+        "output_capacity_range": mk_option(True, rng_cap, "Option<[Capacity; 2]>") if which == "output_capacity_range" else none("Option<[Capacity; 2]>"),
+        "block_range": mk_option(True, rng_u64, "Option<[u64; 2]>") if which == "block_range" else none("Option<[u64; 2]>"),
+        "with_data": BoolV(with_data)})
+    sk = _struct(JT, "IndexerSearchKey", {
+        "script": OpaqueV("search_script_json", "Script"), "script_type": EnumV(stype.index(search_type), (), "IndexerScriptType"),
+        "script_search_mode": mk_option(True, EnumV(smode.index("Exact" if exact else "Prefix"), (), "IndexerSearchMode"), "Option<IndexerSearchMode>"),
+        "filter": none("Option<IndexerSearchKeyFilter>"), "with_data": none("Option<bool>"), "group_by_transaction": none("Option<bool>")})
+    handle = _struct("util/indexer/src/service.rs", "IndexerHandle", {"store": OpaqueV("store", "RocksdbStore"), "pool": none("Option<Arc>"),
+                                                                       "request_limit": ctx.int("request_limit", "usize"), "timeout_limit": OpaqueV("timeout", "Duration")})
+    rows = [AggV((OpaqueV(f"row{k}_key", "Box<[u8]>"), OpaqueV(f"row{k}_value", "Box<[u8]>")), "(Box<[u8]>, Box<[u8]>)") for k in range(nrows)]
+
+    def index_from(ex, c_, a, d):
+        k = rowno(ex, a[0])
+        rng = deref(ex, a[1]) if isinstance(a[1], RefV) else a[1]
+        lo = rng.fields[0].t
+        if not (isinstance(lo, tuple) and lo[0] == "-" and lo[3] == 4 and ("row%d_key" % k) in str(lo[2])):
+            raise Stop(f"unexpected key slice [{lo}..]")
+        return ex.ctx.ref_to(OpaqueV(f"row{k}_bytes_of_output_index", "[u8]"))
+
+    def from_be(ex, c_, a, d):
+        v = deref(ex, a[0]) if isinstance(a[0], RefV) else a[0]
+        m = re.fullmatch(r"row(\d+)_bytes_of_output_index", getattr(v, "name", "") or "")
+        if not m:
+            raise Stop(f"from_be_bytes of {str(v)[:60]}")
+        return oix[int(m.group(1))]
+
+    def op_new(ex, c_, a, d):
+        h, i = a[0], a[1]
+        k = rowno(ex, h)
+        if getattr(h, "name", None) != f"row{k}_tx_hash" or i.t != oix[k].t:
+            raise Stop(f"out-point of mixed rows: {h} {i}")
+        return OpaqueV(f"row{k}_out_point", d)
+
+    def into_vec(ex, c_, a, d):
+        v = deref(ex, a[0]) if isinstance(a[0], RefV) else a[0]
+        if not (isinstance(v, EnumV) and isinstance(v.disc, int)):
+            raise Stop(f"key is not a concrete Key variant: {str(v)[:80]}")
+        x = v.payload(v.disc)[0]
+        x = deref(ex, x) if isinstance(x, RefV) else x
+        return OpaqueV(f"keybytes({keyv[v.disc]},{getattr(x, 'name', '?')})", "Vec<u8>")
+
+    def get(ex, c_, a, d):
+        h = deref(ex, a[1]) if isinstance(a[1], RefV) else a[1]
+        m = re.fullmatch(r"keybytes\((\w+),row(\d+)_out_point\)", getattr(h, "name", "") or "")
+        gets.append((getattr(h, "name", str(h)[:50]), list(ex.pc)))
+        if not m:
+            raise Stop(f"lookup of {str(h)[:60]}")
+        return mk_result(True, mk_option(True, OpaqueV(f"row{m.group(2)}_cell_value[{m.group(1)}]", "DBVector"), "Option<DBVector>"), OpaqueV("dberr", "Error"), d)
+
+    def parse_cell_value(ex, c_, a, d):
+        v = deref(ex, a[0]) if isinstance(a[0], RefV) else a[0]
+        m = re.fullmatch(r"row(\d+)_cell_value\[OutPoint\]", getattr(v, "name", "") or "")
+        if not m:
+            raise Stop(f"parse_cell_value of {str(v)[:60]}")
+        k = int(m.group(1))
+        return AggV((bn[k], txi[k], OpaqueV(f"row{k}_output", "CellOutput"), OpaqueV(f"row{k}_data", "Bytes")), "(u64, u32, CellOutput, Bytes)")
+    named = lambda fmt: (lambda ex, c_, a, d: OpaqueV(fmt % getattr(deref(ex, a[0]) if isinstance(a[0], RefV) else a[0], "name", "?"), d))
+
+    def starts_with(ex, c_, a, d):
+        x = deref(ex, a[0]) if isinstance(a[0], RefV) else a[0]
+        y = deref(ex, a[1]) if isinstance(a[1], RefV) else a[1]
+        nx, ny = getattr(x, "name", "?"), getattr(y, "name", "?")
+        m = re.fullmatch(r"row(\d+)_key", nx)
+        if m:
+            prefixes.add(ny)
+            return BoolV(inpre[int(m.group(1))].t)
+        m = re.fullmatch(r"raw\((lock|type)\(row(\d+)_output\)\)", nx)
+        if m and "filter_script_prefix" in ny:
+            used.append(("script_prefix", m.group(1), int(m.group(2)), list(ex.pc)))
+            return BoolV((sp_lock if m.group(1) == "lock" else sp_type)[int(m.group(2))].t)
+        m = re.fullmatch(r"rawdata\(row(\d+)_data\)", nx)
+        if m and "filter_data" in ny:
+            used.append(("data_prefix", None, int(m.group(1)), list(ex.pc)))
+            return BoolV(data_pre[int(m.group(1))].t)
+        raise Stop(f"starts_with({nx}, {ny})")
+
+    def some_len(ex, c_, a, d):
+        x = deref(ex, a[0]) if isinstance(a[0], RefV) else a[0]
+        nx = getattr(x, "name", "?")
+        m = re.fullmatch(r"raw\((lock|type)\(row(\d+)_output\)\)", nx)
+        if m:
+            used.append(("script_len", m.group(1), int(m.group(2)), list(ex.pc)))
+            return (len_lock if m.group(1) == "lock" else len_type)[int(m.group(2))]
+        m = re.fullmatch(r"row(\d+)_data", nx)
+        if m:
+            used.append(("data_len", None, int(m.group(1)), list(ex.pc)))
+            return data_len[int(m.group(1))]
+        from mir2smt.exec import ENV_PASS
+        return ENV_PASS
+
+    def type_is_none(ex, c_, a, d):
+        return BoolV(T.not_(has_type[rowno(ex, a[0])].t))
+
+    def to_opt(ex, c_, a, d):
+        k = rowno(ex, a[0])
+        return mk_option(has_type[k].t, OpaqueV(f"type(row{k}_output)", "Script"), d)
+
+    def data_cmp_ne(ex, c_, a, d):
+        used.append(("data_exact", None, rowno(ex, a[0]), list(ex.pc)))
+        return BoolV(data_ne[rowno(ex, a[0])].t)
+
+    def memfind(ex, c_, a, d):
+        k = rowno(ex, a[0])
+        used.append(("data_partial", None, k, list(ex.pc)))
+        return mk_option(data_find[k].t, IntV(0, "usize"), d)
+
+    def capacity(ex, c_, a, d):
+        k = rowno(ex, a[0])
+        used.append(("capacity", None, k, list(ex.pc)))
+        return OpaqueV(f"capacity_of_row{k}", d)
+
+    def to_capacity(ex, c_, a, d):
+        m = re.fullmatch(r"capacity_of_row(\d+)", getattr(a[0], "name", "") or "")
+        if not m:
+            raise Stop(f"capacity conversion of {a[0]}")
+        return AggV((cap[int(m.group(1))],), "Capacity")
+    cap_t = lambda ex, v: as_int(deref(ex, v) if isinstance(v, RefV) else v)
+    passthru = lambda ex, c_, a, d: (lambda v: OpaqueV(v.name, d) if isinstance(v, OpaqueV) else a[0])(deref(ex, a[0]) if isinstance(a[0], RefV) else a[0])
+    ctx.env = list(E.LOGGING_OFF) + [
+        (E.rx(r"JsonUint::<u32>::value$"), lambda ex, c_, a, d: IntV(limit_value, "u32")),
+        (E.rx(r"Error::invalid_params::<"), lambda ex, c_, a, d: OpaqueV("invalid_params", d)),
+        (E.rx(r"^build_query_options$"), lambda ex, c_, a, d: (qopts.append((getattr(a[1], "disc", str(a[1])), getattr(a[2], "disc", str(a[2])))), 0)[1] or mk_result(True, AggV((OpaqueV("prefix", "Vec<u8>"), OpaqueV("from_key", "Vec<u8>"), OpaqueV("direction", "Direction"), ctx.int("skip", "usize")), "(Vec<u8>, Vec<u8>, Direction, usize)"), OpaqueV("qerr", "Error"), d)),
+        (E.rx(r"IndexerSearchKey as TryInto<FilterOptions>>::try_into$"), lambda ex, c_, a, d: mk_result(True, fo, OpaqueV("ferr", "Error"), d)),
+        (E.rx(r"RocksdbStore::inner$"), lambda ex, c_, a, d: ex.ctx.ref_to(OpaqueV("db", "DB"))),
+        (E.rx(r"DB::snapshot$"), lambda ex, c_, a, d: OpaqueV("snapshot", d)),
+        (E.rx(r"Snapshot<'_> as .*Iterate>::iterator::<"), lambda ex, c_, a, d: E._owned(rows)),
+        (E.rx(r"<DBIterator<'_> as Iterator>::skip$"), lambda ex, c_, a, d: a[0]),
+        (E.rx(r"TimeoutIterator::<.*>::new$"), lambda ex, c_, a, d: a[0]),
+        (E.rx(r"TimeoutIterator::<.*>::is_timed_out$"), E.const_bool(False)),
+        (E.rx(r"TimeoutIterator<.*> as Iterator>::by_ref$"), lambda ex, c_, a, d: a[0]),
+        (E.rx(r"<Vec<u8> as AsRef<\[u8\]>>::as_ref$|<Box<\[u8\]> as Deref>::deref$|<Vec<u8> as Deref>::deref$|Vec::<u8>::as_slice$|<DBVector as Deref>::deref$|<(ckb_types::bytes::)?Bytes as Deref>::deref$"), lambda ex, c_, a, d: a[0]),
+        (E.rx(r"slice::<impl \[u8\]>::starts_with$"), starts_with),
+        (E.rx(r"slice::<impl \[u8\]>::to_vec$"), lambda ex, c_, a, d: OpaqueV("copy_of_row%d_key" % rowno(ex, a[0]), d)),
+        (E.rx(r"<\[u8\] as Index<(std::ops::)?RangeFrom<usize>>>::index$"), index_from),
+        (E.rx(r"<&\[u8\] as TryInto<\[u8; \d\]>>::try_into$"), lambda ex, c_, a, d: mk_result(True, OpaqueV(getattr(deref(ex, a[0]), "name", "?"), "[u8; N]"), OpaqueV("tryerr", "TryFromSliceError"), d)),
+        (E.rx(r"core::num::<impl u32>::from_be_bytes$"), from_be),
+        (E.rx(r"Byte32 as (ckb_types::prelude::)?Entity>::from_slice$"), lambda ex, c_, a, d: mk_result(True, OpaqueV("row%d_tx_hash" % rowno(ex, a[0]), "Byte32"), OpaqueV("verr", "VerificationError"), d)),
+        (E.rx(r"<impl (ckb_types::packed::)?OutPoint>::new$"), op_new),
+        (E.rx(r"Key::<'_>::into_vec$"), into_vec),
+        (E.rx(r"Snapshot<'_> as .*Get<.*>>::get::<"), get),
+        (E.rx(r"Value::<'_>::parse_cell_value$"), parse_cell_value),
+        (E.rx(r"CellOutput::lock$"), named("lock(%s)")),
+        (E.rx(r"CellOutput::type_$"), named("typeopt(%s)")),
+        (E.rx(r"ScriptOpt::is_none$"), type_is_none),
+        (E.rx(r"ScriptOpt::to_opt$"), to_opt),
+        (E.rx(r"^extract_raw_data$"), named("raw(%s)")),
+        (E.rx(r"(ckb_types::packed::)?Bytes::raw_data$"), named("rawdata(%s)")),
+        (E.rx(r"Vec::<u8>::len$|(ckb_types::packed::)?Bytes::len$"), some_len),
+        (E.rx(r"Bytes as PartialEq<&Vec<u8>>>::ne$"), data_cmp_ne),
+        (E.rx(r"memmem::find$"), memfind),
+        (E.rx(r"CellOutput::capacity$"), capacity),
+        (E.rx(r"<Uint64 as Into<Capacity>>::into$"), to_capacity),
+        (E.rx(r"<Capacity as PartialOrd>::lt$"), lambda ex, c_, a, d: BoolV(T.lt(cap_t(ex, a[0]), cap_t(ex, a[1])))),
+        (E.rx(r"<Capacity as PartialOrd>::ge$"), lambda ex, c_, a, d: BoolV(T.ge(cap_t(ex, a[0]), cap_t(ex, a[1])))),
+        (E.rx(r"<(ckb_types::packed::)?(OutPoint|CellOutput|Bytes) as Into<.*>>::into$"), passthru),
+        (E.rx(r"JsonBytes::from_vec$"), passthru),
+        (E.rx(r"<u(32|64) as Into<.*JsonUint<u(32|64)>>>::into$"), lambda ex, c_, a, d: a[0]),
+        (E.rx(r"IndexerPagination::<.*>::new$"), lambda ex, c_, a, d: AggV((a[0], a[1]), "IndexerPagination")),
+        (E.rx(r"^format$|must_use::<"), E.opaque_call()),
+    ] + list(E.LIST_ADAPTORS)
+    ps = S.run(ctx, f, [ctx.ref_to(handle), sk, EnumV(0, (), "IndexerOrder"), OpaqueV("limit_json", "JsonUint<u32>"), mk_option(False, None, "Option<JsonBytes>")])
+    in_range = lambda t: T.and_(T.le(r0.t, t), T.lt(t, r1.t))
+    other = "type" if search_type == "Lock" else "lock"
+    passes = []
+    for k in range(nrows):
+        if other == "lock":
+            sp, ln = sp_lock[k].t, len_lock[k].t
+        else:           # a cell without a type script fails a type-script prefix filter and has script length 0
+            sp, ln = T.and_(has_type[k].t, sp_type[k].t), T.ite(has_type[k].t, len_type[k].t, 0)
+        passes.append({"none": True, "script_prefix": sp, "script_len_range": in_range(ln), "output_data_prefix": data_pre[k].t, "output_data_exact": T.not_(data_ne[k].t),
+                       "output_data_partial": data_find[k].t, "output_data_len_range": in_range(data_len[k].t), "output_capacity_range": in_range(cap[k].t), "block_range": in_range(bn[k].t)}[which])
+    return dict(ctx=ctx, ps=ps, gets=gets, qopts=qopts, prefixes=prefixes, used=used, inpre=inpre, oix=oix, bn=bn, txi=txi, passes=passes, nrows=nrows, other=other)
+
+
+def m5_get_cells(S):
+    """`IndexerHandle::get_cells` on two rows of the live-cell index: Lock/Type search x one filter at a time (none, script prefix, script length range, output data prefix / exact /
+    partial, data length range, capacity range, block range) x exact mode (limit 2; limit 1 for two filters) and prefix mode (no filter)"""
+    ob = "C18.m5"
+    CX = field_index(JT, "IndexerCell")
+    kp = _enum_values("util/indexer/src/indexer.rs", "KeyPrefix")
+    scen = [(w, True, 2, False) for w in FILTERS] + [("none", False, 2, True), ("script_prefix", True, 1, True), ("block_range", True, 1, False)]
+    for search_type in ("Lock", "Type"):
+        for which, exact, limit_value, with_data in scen:
+            R = run_get_cells(S, search_type, which, exact, limit_value, with_data)
+            ctx, ps = R["ctx"], R["ps"]
+            tag = f"{search_type}_{which}_{'exact' if exact else 'prefix'}_limit{limit_value}"
+            lens = [_sym(ctx, r"len\.row%d_key[\w.]*" % k) for k in range(R["nrows"])]
+            if exact:
+                pre = [T.ge(ctx.int("request_limit", "usize").t, limit_value), T.le(_sym(ctx, r"uf\.len_prefix_\w*"), 1 << 20), T.ge(_sym(ctx, r"uf\.len_prefix_\w*"), 0)]
+            else:       # storage invariant: every key of the cell index ends with 16 bytes of coordinates
+                pre = [T.ge(ctx.int("request_limit", "usize").t, limit_value)] + [T.ge(l, 16) for l in lens]
+            S.prove(ctx, ob, f"{tag}_no_panic", pre, T.not_(cond_of(panics(ps))))
+            S.prove(ctx, ob, f"{tag}_the_scan_runs_over_the_cell_index_and_cells_are_loaded_by_the_out_point_of_the_row", [],
+                    bool(R["qopts"] and all(q == (kp["CellLockScript"], kp["CellTypeScript"]) for q in R["qopts"]) and R["prefixes"] and all(re.fullmatch(r"(uf\.deref_)?prefix[_.]*", x) for x in R["prefixes"])
+                         and R["gets"] and all(re.fullmatch(r"keybytes\(OutPoint,row\d+_out_point\)", g) for g, _ in R["gets"])), extra={"note": str((R["qopts"][:1], sorted(R["prefixes"]), [g for g, _ in R["gets"]][:2]))})
+            # a script filter looks at the script of the OTHER kind of the cell at hand
+            S.prove(ctx, ob, f"{tag}_script_filters_look_at_the_other_script_of_the_cell", [], bool(all(kind == R["other"] for t_, kind, _, _ in R["used"] if t_ in ("script_prefix", "script_len"))
+                                                                                                 and (which not in ("script_prefix", "script_len_range") or any(t_ in ("script_prefix", "script_len") for t_, *_ in R["used"]))), extra={"note": str([(u[0], u[1], u[2]) for u in R["used"]][:4])})
+            inc = []
+            for k in range(R["nrows"]):
+                c = [R["inpre"][j].t for j in range(k + 1)]
+                if exact:
+                    c.append(T.eq(lens[k], T.add(_sym(ctx, r"uf\.len_prefix_\w*"), 16)))
+                c.append(R["passes"][k])
+                inc.append(T.and_(*c))
+            goals, shape = [], True
+            for p_ in returns(ps):
+                v = p_.value
+                if not (isinstance(v, EnumV) and isinstance(v.disc, int)):
+                    shape = False
+                    continue
+                if v.disc == 1:
+                    continue
+                pag = v.payload(0)[0]
+                lst = pag.fields[0] if isinstance(pag, AggV) else None
+                if not isinstance(lst, ListV):
+                    shape = False
+                    continue
+                got = []
+                for it in lst.items:
+                    k = _row_of(it.fields[CX["block_number"]].t, R) if isinstance(it, AggV) else None
+                    od = it.fields[CX["output_data"]] if isinstance(it, AggV) else None
+                    ok = (k is not None and it.fields[CX["tx_index"]].t == R["txi"][k].t and getattr(it.fields[CX["out_point"]], "name", None) == f"row{k}_out_point"
+                          and getattr(it.fields[CX["output"]], "name", None) == f"row{k}_output" and isinstance(od, EnumV) and od.disc == (1 if with_data else 0)
+                          and (not with_data or getattr(od.payload(1)[0], "name", None) == f"row{k}_data"))
+                    if not ok:
+                        shape = False
+                        continue
+                    got.append(k)
+                if limit_value >= R["nrows"]:
+                    goals.append(T.implies(p_.cond(), T.and_(*[T.iff(inc[k], bool(k in got)) for k in range(R["nrows"])])))
+                else:
+                    goals.append(T.implies(p_.cond(), T.eq(T.ite(inc[0], 0, T.ite(inc[1], 1, -1)), got[0] if got else -1)))
+                goals.append(T.implies(p_.cond(), bool(got == sorted(got) and len(got) <= limit_value)))
+            S.prove(ctx, ob, f"{tag}_every_answer_item_is_the_cell_of_one_row_with_its_out_point_coordinates_and_data_iff_asked", [], bool(shape))
+            S.prove(ctx, ob, f"{tag}_the_answer_is_exactly_the_rows_under_the_prefix_that_pass_the_filter_in_scan_order", pre, T.and_(*goals) if goals else False)
+            S.witness(ctx, ob, f"{tag}_reach_second_row_answered", pre, T.and_(inc[1], inc[0]) if limit_value >= 2 else T.and_(inc[1], T.not_(inc[0])))
